@@ -30,6 +30,12 @@ Definition allocate (a : arena) (x : T) : res (arena * N) :=
       Ok (mkArena (store a ++ [x]) (mask a ++ [true]) [], id)
   end.
 
+(* usize::try_from(id) followed by an index into a Vec of length [n]: every id >= n is
+   out of range.  Converting through this guard (instead of a bare [N.to_nat]) keeps the
+   extracted model from building a unary number for handles like 2^31. *)
+Definition idx (n : nat) (id : N) : nat :=
+  if N.ltb id (N.of_nat n) then N.to_nat id else n.
+
 (* allocated_mask.get(index).copied().unwrap_or(false) *)
 Definition mask_at (a : arena) (i : nat) : bool :=
   match nth_error (mask a) i with Some b => b | None => false end.
@@ -37,7 +43,7 @@ Definition mask_at (a : arena) (i : nat) : bool :=
 (* deallocate / deallocate_with_default: identical bodies *)
 Definition deallocate (a : arena) (id : N) : res (arena * option T) :=
   if N.eqb id NULL then Ok (a, None) else
-  let i := N.to_nat id in
+  let i := idx (length (mask a)) id in
   if negb (mask_at a i) then Ok (a, None) else
   do mk <- vec_set 4 i false (mask a);
   do old <- vec_get 5 i (store a);
@@ -48,28 +54,28 @@ Definition deallocate_with_default := deallocate.
 
 Definition deallocate_no_return (a : arena) (id : N) : res (arena * bool) :=
   if N.eqb id NULL then Ok (a, false) else
-  let i := N.to_nat id in
+  let i := idx (length (mask a)) id in
   if orb (Nat.leb (length (mask a)) i) (negb (mask_at a i)) then Ok (a, false) else
   do mk <- vec_set 6 i false (mask a);
   Ok (mkArena (store a) mk (i :: free a), true).
 
 Definition a_get (a : arena) (id : N) : option T :=
   if N.eqb id NULL then None else
-  let i := N.to_nat id in
+  let i := idx (length (store a)) id in
   if andb (Nat.ltb i (length (store a))) (mask_at a i) then nth_error (store a) i
   else None.
 
 (* get_mut followed by a write through the reference *)
 Definition a_set (a : arena) (id : N) (x : T) : arena * bool :=
   if N.eqb id NULL then (a, false) else
-  let i := N.to_nat id in
+  let i := idx (length (store a)) id in
   if andb (Nat.ltb i (length (store a))) (mask_at a i)
   then (mkArena (set_nth i x (store a)) (mask a) (free a), true)
   else (a, false).
 
 Definition a_contains (a : arena) (id : N) : bool :=
   if N.eqb id NULL then false else
-  let i := N.to_nat id in
+  let i := idx (length (store a)) id in
   andb (Nat.ltb i (length (store a))) (mask_at a i).
 
 Definition a_len (a : arena) : nat := count_true (mask a).
@@ -94,7 +100,7 @@ Definition a_compact (a : arena) : arena :=
 (* unchecked access: UB unless the slot is inside storage AND allocated (the
    documented safety contract "id is valid and allocated") *)
 Definition a_get_unchecked (site : nat) (a : arena) (id : N) : res T :=
-  let i := N.to_nat id in
+  let i := idx (length (store a)) id in
   if andb (Nat.ltb i (length (store a))) (mask_at a i) then
     match nth_error (store a) i with Some x => Ok x | None => UB site end
   else UB site.
